@@ -7,44 +7,9 @@
 
 use serde_json::{json, Value};
 use std::collections::HashMap;
-use std::process::Command;
 use vexplore::evidence::*;
 
-const CONFIGS: [(&str, &str); 4] = [("none", ""), ("core", "core"), ("core+utf8", "core,utf8"), ("utf8", "utf8")];
-
-fn dirs() -> (String, String) {
-    let harness = std::env::var("VERIF_HARNESS_DIR").unwrap_or_else(|_| "/verif/harness".into());
-    let build = std::env::var("VERIF_BUILD_DIR").unwrap_or_else(|_| "/verif/.build".into());
-    (harness, build)
-}
-
-fn build_and_run(name: &str, feats: &str, depth: usize, wall: f64) -> Result<(Value, String), String> {
-    let (harness, build) = dirs();
-    let outdir = format!("{build}/parsecfg");
-    std::fs::create_dir_all(&outdir).map_err(|e| e.to_string())?;
-    let st = Command::new("cargo")
-        .current_dir(&harness)
-        .env("CARGO_NET_OFFLINE", "true")
-        .args(["build", "--offline", "--profile", "verif", "-p", "vparsecfg", "--no-default-features", "--features", feats])
-        .output()
-        .map_err(|e| format!("cannot run cargo: {e}"))?;
-    if !st.status.success() {
-        return Err(format!("build of vparsecfg [{name}] failed: {}", String::from_utf8_lossy(&st.stderr).chars().rev().take(1500).collect::<String>().chars().rev().collect::<String>()));
-    }
-    let bin = format!("{outdir}/vparsecfg-{}", name.replace('+', "_"));
-    std::fs::copy(format!("{build}/target/verif/vparsecfg"), &bin).map_err(|e| format!("copy worker: {e}"))?;
-    let digests = format!("{outdir}/digests-{}.txt", name.replace('+', "_"));
-    let out = Command::new(&bin).args([depth.to_string(), digests.clone(), wall.to_string()]).output().map_err(|e| e.to_string())?;
-    let stdout = String::from_utf8_lossy(&out.stdout);
-    let line = stdout.lines().find(|l| l.starts_with("RESULT ")).ok_or_else(|| {
-        format!("worker [{name}] gave no result (exit {:?}): {}", out.status.code(), String::from_utf8_lossy(&out.stderr).chars().take(800).collect::<String>())
-    })?;
-    let v: Value = serde_json::from_str(&line[7..]).map_err(|e| e.to_string())?;
-    if v["config"] != name {
-        return Err(format!("worker built for [{name}] reports configuration {}", v["config"]));
-    }
-    Ok((v, digests))
-}
+use vchecks::parsecfg::{build_and_run, CONFIGS};
 
 fn main_check(ctx: &Ctx) -> Outcome {
     let mut out = Outcome::default();
@@ -53,12 +18,14 @@ fn main_check(ctx: &Ctx) -> Outcome {
     let mut tables: Vec<(String, HashMap<String, (String, bool)>)> = vec![];
     let mut states = 0u64;
     let mut transitions = 0u64;
+    let mut sweeps = 0u64;
     // builds must be sequential (same package, different features); runs are cheap
     for (name, feats) in CONFIGS {
         match build_and_run(name, feats, depth, wall) {
             Ok((v, digests)) => {
                 states += v["states"].as_u64().unwrap_or(0);
                 transitions += v["transitions"].as_u64().unwrap_or(0);
+                sweeps += v["sweep_inputs"].as_u64().unwrap_or(0);
                 for viol in v["violations"].as_array().cloned().unwrap_or_default() {
                     let labels: Vec<String> = viol["labels"].as_array().unwrap().iter().map(|x| x.as_str().unwrap().to_string()).collect();
                     out.findings.push(Finding {
@@ -80,6 +47,7 @@ fn main_check(ctx: &Ctx) -> Outcome {
                     out.push_sample(json!({"config": name, "trace": t}));
                 }
                 let text = std::fs::read_to_string(&digests).unwrap_or_default();
+                let _ = std::fs::remove_file(&digests);
                 let mut m = HashMap::new();
                 for l in text.lines() {
                     let mut it = l.split(' ');
@@ -127,15 +95,16 @@ fn main_check(ctx: &Ctx) -> Outcome {
     let sizes: Vec<usize> = tables.iter().map(|t| t.1.len()).collect();
     out.set("states", json!(states));
     out.set("transitions", json!(transitions));
-    out.set("traces_validated_against_impl", json!(transitions));
+    out.set("traces_validated_against_impl", json!(transitions + sweeps));
+    out.set("boundary_sweep_inputs_per_configuration", json!(sweeps / 4));
     out.set("cross_config_digest_comparisons", json!(compared));
     out.set("oversize_osc_transitions_excluded_from_cross_comparison", json!(oversize));
     out.set("digest_table_sizes", json!(sizes));
-    out.set("evaluations", json!(transitions));
+    out.set("evaluations", json!(transitions + sweeps));
     out.set("distinct_nontrivial", json!(base.len()));
     out.set("depth", json!(depth));
     out.set("exhaustive", json!(false));
-    out.set("explanation", json!("bounded depth over a 23-token 7-bit alphabet (single bytes + OSC payload macro tokens of 24/500/1000/1030/1100 bytes, 20 separators, 16 parameters); each of the four separately built binaries is compared with the model on every transition, and the digests are compared across builds"));
+    out.set("explanation", json!("bounded depth over a 23-token 7-bit alphabet (single bytes + OSC payload macro tokens of 24/500/1000/1030/1100 bytes, 20 separators, 16 parameters); each of the four separately built binaries is compared with the model on every transition, and the digests are compared across builds; plus boundary sweeps from the initial state in every build: every 7-bit byte value in the OSC payload slots around the fixed buffer's end (payload lengths 1022..=1026, 1100; BEL and ST), separators straddling the end, and every parameter / sub-parameter value 0..=70000 and some larger ones in CSI and DCS position"));
     out.assume("what happens to ';' separators after the fixed OSC buffer is full is not specified: for such dispatches only the stored payload bytes and the terminator kind are compared");
     out.assume("only 7-bit input is fed (without the utf8 feature the crate does not accept multi-byte characters)");
     out
